@@ -187,8 +187,8 @@ theorem cyc_raw : Raw cycCfg (.union [.ser "A", .ser "B"]) = true := by
 set_option linter.unusedSimpArgs false in
 theorem cyc_fails (n : Nat) :
     optimize cycCfg anyEnv (n + 2) (.union [.ser "A", .ser "B"]) = .error .stopIteration := by
-  rw [optimize, optimizeUnion_eq]
-  simp +decide [splitMembers, cycCfg, stageMerge, stageInt, stageStr, stageList, stageDict, resolve, dedupStr,
+  rw [optimize, optimizeUnion_eq, SplitW.splitMembers_eq_fold_of_all (by decide)]
+  simp +decide [SplitW.splitFold, cycCfg, stageMerge, stageInt, stageStr, stageList, stageDict, resolve, dedupStr,
     replacedIn, Ty.isStr, bind, Except.bind, pure, Except.pure]
 
 theorem optimize_total_false : ¬ optimize_total_Statement := by
@@ -296,7 +296,12 @@ example : Raw exCfg exEmptyNull = true ∧ rawK exCfg exEmptyNull = true := by
 set_option linter.unusedSimpArgs false in
 /-- the model's first pass on it (any environment would do, `anyEnv` is a concrete one) -/
 example : optimize exCfg anyEnv 6 exEmptyNull = .ok (.list (.opt .unknown)) := by
-  simp +decide [exEmptyNull, optimize, optimizeUnion_eq, splitMembers, exCfg, stageMerge, stageInt, stageStr,
+  have h1 : splitMembers exCfg.reg [Ty.list .unknown, .list .null] = SplitW.splitFold exCfg.reg [.list .unknown, .list .null] :=
+    SplitW.splitMembers_eq_fold_of_all (by decide)
+  have h2 : splitMembers exCfg.reg [Ty.unknown, .null] = SplitW.splitFold exCfg.reg [.unknown, .null] :=
+    SplitW.splitMembers_eq_fold_of_all (by decide)
+  simp only [exCfg] at h1 h2
+  simp +decide [exEmptyNull, optimize, optimizeUnion_eq, h1, h2, SplitW.splitFold, exCfg, stageMerge, stageInt, stageStr,
     stageList, stageDict, finishOpt, mkUnion, mkUnionMembers, flattenUnion, handleType, hashStr, removeFirst,
     Ty.isStr, Ty.isInt, Ty.isFloat, Ty.isUnknown, Ty.isNull, bind, Except.bind, pure, Except.pure]
 
